@@ -2,6 +2,7 @@
 package bad
 
 import (
+	"errors"
 	"fmt"
 	"reflect"
 	"strings"
@@ -128,6 +129,17 @@ func TidyAll(ns []node) error {
 	var err error
 	for i := range ns {
 		ns[i], err = ns[i].tidy()
+	}
+	return err
+}
+
+// ErrUndefined stands for "no value".
+var ErrUndefined = errors.New("undefined")
+
+// Swallow treats every error that wraps the sentinel as "no value".
+func Swallow(err error) error {
+	if errors.Is(err, ErrUndefined) {
+		return nil
 	}
 	return err
 }
